@@ -19,9 +19,9 @@ RULE = ("corpus files, generated documents and vocabulary documents are formatte
 EVAL_KEY = "pairs_judged"
 DISTINCT_KEY = "pairs"
 NSHARDS = {"quick": 8, "thorough": 16}
-FLOORS = {"quick": {"pairs_judged": 8000, "distinct:option-sets": 40, "separate_complex_judged": 2000, "reordered_objects": 200},
+FLOORS = {"quick": {"pairs_judged": 8000, "distinct:option-sets": 40, "separate_complex_judged": 2000, "reordered_objects": 200, "documents_loaded_with_comments": 80},
           "thorough": {"pairs_judged": 150000, "distinct:option-sets": 700, "separate_complex_judged": 100000,
-                       "reordered_objects": 10000}}
+                       "reordered_objects": 10000, "documents_loaded_with_comments": 700}}
 ASSUMPTIONS = ["block-valued keys = values printed with an END (child blocks, lists of blocks, key-value blocks, PROJECTION/POINTS/PATTERN), "
                "decided from the reference dictionary's values, not from key names"]
 DOMAIN = gen.DOMAIN + ["documents containing the chosen quote character (or a backslash) inside a string are skipped for that quote (counted)",
@@ -83,7 +83,7 @@ def judge_doc(ctx, eng, d, osets, label, ident):
         if relations.contains_quote(d, o["quote"]):
             res.count("excluded:string-contains-output-quote")
             continue
-        if o["newlinechar"] == " " and o["end_comment"]:
+        if o["newlinechar"] == " " and (o["end_comment"] or label.endswith("+comments")):
             res.count("excluded:space-newline-with-comments")
             continue
         case = {"workload": label, "doc": ident, "options": o, "dict": core.canon(d) if len(repr(d)) < 20000 else None}
@@ -151,6 +151,18 @@ def run(ctx):
     n = ctx.n(400, 3000)
     for j in range(n):
         nodes = gen.gen_document(r, gen.GenOpts(gated=ctx.gated, p_key=r.choice([0.2, 0.4]), dup=0.0))
+        if j % 3 == 2:
+            # the dictionary carries the source's comments (what `mappyfile format --comments` prints): the content of the text
+            # written under any option set is the same
+            sf = render.surfaces(r, 1)[0]
+            sf.gap_comments = r.choice([0.2, 0.4])
+            text = render.render(nodes, sf, r).text
+            try:
+                docs.append(("gen+comments", h(text), eng.loads(text, include_comments=True)))
+                res.count("documents_loaded_with_comments")
+            except Exception:
+                res.count("commented_rendering_not_accepted(C05 decides)")
+            continue
         text = render.render(nodes).text
         docs.append(("gen", h(text), eng.loads(text)))
     for i, (o, k, ai) in enumerate(gen.vocab_slots()):
